@@ -83,7 +83,7 @@ func (mt *MerkleTree) Open(i int) (MerkleProof, error) {
 		posBound  = 1 << mt.Depth()
 	)
 
-	if i >= posBound {
+	if i < 0 || i >= posBound {
 		return nil, errors.New("error: index out of range")
 	}
 
